@@ -21,12 +21,17 @@ def correspondence(ctx):
     quick = ctx.tier == 'quick'
     seed = ctx.rng.randrange(1, 10 ** 5)
     nb = len(mod.boundary_cases())
-    cs = mod.cases(seed, nb + (12 if quick else 250))
+    cs = common.safe_cases(ctx, NAME, lambda: mod.cases(seed, nb + (12 if quick else 250)))
+    if cs is None:
+        return
     if quick:
         cs = ctx.rng.sample(cs[:nb], min(nb, 24)) + cs[nb:]
     texts = []
     for c in cs:
-        texts.append(mod.render(c))
+        t = common.safe_render(ctx, NAME, mod.render, c)
+        if t is None:
+            continue
+        texts.append(t)
         ctx.case(('inplace', len(texts[-1]) // 2000), True)
     ctx.count('inplace:cases', len(cs))
     bad, err = common.coq_bad_cases('inplace', ['From PV.Model Require Import Codec Udf InPlace.'], [], 'ip_case', texts, 'bad_inplace_cases 0',
